@@ -27,7 +27,7 @@ type quiet struct{}
 
 func (quiet) Name() string                                  { return "quiet" }
 func (quiet) Configure(config map[string]interface{}) error { return nil }
-func (quiet) Printf(format string, v ...interface{})       {}
+func (quiet) Printf(format string, v ...interface{})        {}
 
 func main() {
 	cfg = vlib.ParseFlags()
@@ -192,7 +192,60 @@ func main() {
 				}
 			}
 		}
+		// the same service called the way the HTTP key-generation form calls it: CreateKey directly
+		for i := 0; i < 80*cfg.Mult; i++ {
+			pp := pool[r.Intn(len(pool))]
+			parentTerm := vlib.App("Ok", vlib.Bytes(pp.k))
+			penc, pname := pp.enc, pp.name
+			if r.Intn(25) == 0 {
+				penc, parentTerm, pname = string(vlib.RandBytes(r, 32)), "(Err KCorrupt)", "garbage"
+			}
+			ch := channels[r.Intn(len(channels))]
+			access := uint8(r.Intn(256))
+			ttl := ttls[r.Intn(len(ttls))]
+			t0 := time.Now().Unix()
+			expires := int64(0)
+			exp := time.Unix(0, 0)
+			if ttl != 0 {
+				expires = t0 + int64(ttl)
+				exp = time.Unix(expires, 0)
+			}
+			var key string
+			var kerr *errors.Error
+			p, _ := vlib.Catch(func() { key, kerr = kg.CreateKey(penc, ch, access, exp) })
+			outcome := ""
+			switch {
+			case p:
+				outcome = "GPanic"
+			case kerr == nil:
+				dk, derr := cipher.DecryptKey([]byte(key))
+				if derr != nil {
+					outcome = "GPanic"
+				} else {
+					outcome = vlib.App("GOk", vlib.Bytes(dk), "[]")
+				}
+			default:
+				code := "GOther"
+				switch kerr {
+				case errors.ErrUnauthorized:
+					code = "GUnauthorized"
+				case errors.ErrNotFound:
+					code = "GNotFound"
+				case errors.ErrTargetInvalid:
+					code = "GTargetInvalid"
+				case errors.ErrTargetTooLong:
+					code = "GTargetTooLong"
+				case errors.ErrBadRequest:
+					code = "GBadRequest"
+				}
+				outcome = vlib.App("GErr", code)
+			}
+			sh.Add(vlib.App("CCreate", parentTerm, vlib.Str(penc),
+				vlib.App("Contract", vlib.N(uint64(lic.Contract())), "1", vlib.N(uint64(lic.Signature())), "true"),
+				vlib.Z(t0), vlib.Str(ch), vlib.N(uint64(access)), vlib.Z(expires), outcome),
+				map[string]interface{}{"op": "CreateKey (HTTP form path)", "parent": pname, "channel": ch, "access": access, "ttl": ttl}, "createkey/"+pname, true)
+		}
 		svc.Close()
 	}
-	sh.Finish("keygen requests through the real keygen.Service under each licence version: parents master / extendable with random masks / ordinary / expired / foreign contract / wrong signature / master+other bits / undecryptable; 16 channels (valid, wildcard, '#/', missing slash, empty, 24 levels), 14 type strings (every letter, junk), 12 ttl values (0, positive, 2^31-1, negative incl. -2^31); non-trivial: all")
+	sh.Finish("keygen requests through the real keygen.Service under each licence version: parents master / extendable with random masks / ordinary / expired / foreign contract / wrong signature / master+other bits / undecryptable; 16 channels (valid, wildcard, '#/', missing slash, empty, 24 levels), 14 type strings (every letter, junk), 12 ttl values (0, positive, 2^31-1, negative incl. -2^31); the same parents through CreateKey directly (the HTTP form's path) with every access byte; non-trivial: all")
 }
